@@ -169,3 +169,31 @@ func AllowedIn(id byte, scope int) bool {
 	d, ok := PropTable[id]
 	return ok && d.in&(1<<uint(scope)) != 0
 }
+
+// MakePropValue builds a property node for a defined identifier whose value
+// is given by the caller for string / binary types (other types as MakeProp).
+func MakePropValue(id byte, val []byte, seed uint32) *Node {
+	d, ok := PropTable[id]
+	if !ok {
+		return nil
+	}
+	switch d.typ {
+	case tStr:
+		return prop(id, "repeated", leafStr("repeated", string(val)))
+	case tBin:
+		return prop(id, "repeated", leafBin("repeated", val))
+	}
+	return MakeProp(id, seed)
+}
+
+// AllowedProps lists the identifiers allowed in the given scope (packet type
+// number, or 16 for will properties).
+func AllowedProps(scope int) []byte {
+	var out []byte
+	for i := 0; i < 256; i++ {
+		if AllowedIn(byte(i), scope) {
+			out = append(out, byte(i))
+		}
+	}
+	return out
+}
